@@ -1716,7 +1716,11 @@ string StringReader::get_line(bool advance) {
     }
   }
   if (advance) {
-    this->offset += (ret.size() + 1);
+    this->offset += ret.size();
+    // Skip the newline too, unless the last line is not terminated by one
+    if (this->offset < this->length) {
+      this->offset++;
+    }
   }
   if (ends_with(ret, "\r")) {
     ret.pop_back();
